@@ -239,3 +239,32 @@ func HarnessC16Matcher(L int) {
 	}
 	verifReach("linted")
 }
+
+func verifC16NoFile(name string) ([]byte, error) {
+	return nil, &verifC10Err{"open " + name + ": no such file or directory"}
+}
+
+// HarnessC16CallPath: a local reusable workflow call whose path contains L
+// arbitrary bytes (the file does not exist; the error of the file system
+// echoes the path) inside a project.
+func HarnessC16CallPath(L int) {
+	if verifIsNative() {
+		verifReach("linted")
+		verifReach("diagnostic")
+		return // needs a project on disk whose file name contains arbitrary bytes; the symbolic run uses a virtual one
+	}
+	path := "./" + verifSymString("path", L) + ".yml"
+	verifOverride("os.ReadFile", verifC16NoFile)
+	s := yScalar
+	doc := yDoc(yMap(s("on"), s("push"), s("jobs"), yMap(s("j"), yMap(s("uses"), s(path)))))
+	verifPlace(doc, 1, 0)
+	proj := &Project{root: "/r"}
+	lw := NewLocalReusableWorkflowCache(proj, "/r", nil)
+	la := NewLocalActionsCache(proj, nil)
+	errs := verifLintNode(doc, []Rule{NewRuleWorkflowCall("/r/.github/workflows/w.yml", lw), NewRuleExpression(la, lw)})
+	for _, e := range errs {
+		verifReach("diagnostic")
+		verifCheck(verifNot(verifMsgHasRawNewline(e.Message)), "raw-line-break-in-message")
+	}
+	verifReach("linted")
+}
